@@ -10,7 +10,7 @@ cd $S/repo && git init -q . 2>/dev/null && git apply $PATCHFILE 2>$S/apply.err |
 go build ./... 2>$S/build.err || { echo "{\"id\":\"$ID\",\"error\":\"does not build\"}" > /tmp/cm2/$ID.json; rm -rf $S; exit 1; }
 cd /verif
 caught=""; errs=""
-out=$(GOVC_REPO=$S/repo GOVC_WORK=$S/work GOVC_EVIDENCE_DIR=$S/ev bin/govc check -p all 2>&1)
+out=$(GOVC_REPO=$S/repo GOVC_WORK=$S/work GOVC_EVIDENCE_DIR=$S/ev ${GOVC_BIN:-bin/govc} check -p all 2>&1)
 for p in $(echo "$out" | awk '/^EXIT /{ if ($3==1) print $2 }'); do
   caught="$caught $p"
   echo "$out" | grep "^VIOLATION property=$p " | sed 's/ replay=[^ ]*//' | cut -c1-200 > /tmp/cm2/$ID.$p.viol
